@@ -12,7 +12,7 @@ use serde_repr::{Deserialize_repr, Serialize_repr};
 
 use crate::error::{ExpectedPositiveValue, FontInfoErrorKind, FontInfoLoadError};
 use crate::shared_types::PUBLIC_OBJECT_LIBS_KEY;
-use crate::{FormatVersion, Guideline, Identifier, Plist};
+use crate::{FormatVersion, Guideline, Identifier, Line, Plist};
 
 /// A signed integer.
 pub type Integer = i32;
@@ -862,10 +862,16 @@ impl FontInfo {
             }
         }
 
-        // Guideline identifiers must be unique within fontinfo.
+        // Guideline identifiers must be unique within fontinfo and guideline angles
+        // must be between 0 and 360 degrees.
         if let Some(guidelines) = &self.guidelines {
             let mut identifiers: HashSet<Identifier> = HashSet::new();
             for guideline in guidelines {
+                if let Line::Angle { degrees, .. } = guideline.line {
+                    if !(0.0..=360.0).contains(&degrees) {
+                        return Err(FontInfoErrorKind::InvalidGuidelineAngle);
+                    }
+                }
                 if let Some(id) = guideline.identifier() {
                     if !identifiers.insert(id.clone()) {
                         return Err(FontInfoErrorKind::DuplicateGuidelineIdentifiers);
